@@ -56,7 +56,7 @@ type destSpec struct {
 type httpSpec struct {
 	srcNs    []string // one entry per HTTPMatchRequest (its sourceNamespace, possibly "")
 	dests    []destSpec
-	delegate *[2]string // (namespace or "", name): a delegating route (no match, no destinations)
+	delegate *[2]string // (namespace or "", name): a delegating route (no destinations; its match merges with the delegate's)
 }
 
 type vsSpec struct {
@@ -162,6 +162,7 @@ func decTP(t string) (*tpSpec, bool) {
 type listenerSpec struct {
 	port  int
 	proto string
+	bind  string // "" or a unix domain socket path
 	hosts []string
 }
 
@@ -176,6 +177,13 @@ type sidecarSpec struct {
 type sevRule struct {
 	kind   string            // "?" unset matcher, "!" namespace selector without a selector, "s" selector
 	labels map[string]string // matchLabels (kind "s"; empty: matches every namespace)
+	exprs  []sevExpr         // matchExpressions
+}
+
+// sevExpr: key, operator (in | notin | ex | nex), values
+type sevExpr struct {
+	key, op string
+	values  []string
 }
 
 type sevPolicy struct {
@@ -214,6 +222,7 @@ type world struct {
 	rev   int // revision marker of updated VirtualServices
 	env   *model.Environment
 	stop  chan struct{}
+	stops []chan struct{} // environments replaced by a rebuild, stopped at the end of the case
 	byID  map[string]*svcSpec
 
 	queries  [][]string // scope queries of the case (oracle)
@@ -307,6 +316,9 @@ func encHTTP(hs []httpSpec) string {
 	for i, h := range hs {
 		if h.delegate != nil {
 			o[i] = "@" + wire.Enc(h.delegate[0]) + "|" + wire.Enc(h.delegate[1])
+			if len(h.srcNs) > 0 {
+				o[i] = encItems(h.srcNs, "|") + "^" + o[i]
+			}
 			continue
 		}
 		o[i] = encItems(h.srcNs, "|") + "^" + encDests(h.dests)
@@ -326,6 +338,11 @@ func decHTTP(t string) []httpSpec {
 			continue
 		}
 		a, b, _ := strings.Cut(it, "^")
+		if strings.HasPrefix(b, "@") {
+			x, y, _ := strings.Cut(b[1:], "|")
+			out = append(out, httpSpec{srcNs: decItems(a, "|"), delegate: &[2]string{wire.Dec(x), wire.Dec(y)}})
+			continue
+		}
 		out = append(out, httpSpec{srcNs: decItems(a, "|"), dests: decDests(b)})
 	}
 	return out
@@ -337,6 +354,10 @@ func encEgress(ls []listenerSpec) string {
 	}
 	o := make([]string, len(ls))
 	for i, l := range ls {
+		if l.bind != "" {
+			o[i] = fmt.Sprintf("%d|%s|%s^%s", l.port, wire.Enc(l.proto), wire.Enc(l.bind), encItems(l.hosts, "|"))
+			continue
+		}
 		o[i] = fmt.Sprintf("%d|%s^%s", l.port, wire.Enc(l.proto), encItems(l.hosts, "|"))
 	}
 	return strings.Join(o, ";")
@@ -349,9 +370,16 @@ func decEgress(t string) []listenerSpec {
 	var out []listenerSpec
 	for _, it := range strings.Split(t, ";") {
 		a, b, _ := strings.Cut(it, "^")
-		p, pr, _ := strings.Cut(a, "|")
-		n, _ := strconv.Atoi(p)
-		out = append(out, listenerSpec{n, wire.Dec(pr), decItems(b, "|")})
+		f := strings.Split(a, "|")
+		n, _ := strconv.Atoi(f[0])
+		l := listenerSpec{port: n, hosts: decItems(b, "|")}
+		if len(f) > 1 {
+			l.proto = wire.Dec(f[1])
+		}
+		if len(f) > 2 {
+			l.bind = wire.Dec(f[2])
+		}
+		out = append(out, l)
 	}
 	return out
 }
@@ -433,10 +461,17 @@ func encSev(v *sevSpec) string {
 			switch {
 			case r.kind != "s":
 				rs = append(rs, r.kind)
-			case len(r.labels) == 0:
+			case len(r.labels) == 0 && len(r.exprs) == 0:
 				rs = append(rs, "-")
 			default:
-				rs = append(rs, strings.ReplaceAll(encLabels(r.labels, false), "|", "+"))
+				var items []string
+				if len(r.labels) > 0 {
+					items = append(items, strings.Split(encLabels(r.labels, false), "|")...)
+				}
+				for _, e := range r.exprs {
+					items = append(items, wire.Enc(e.key)+":"+e.op+":"+strings.Join(e.values, "."))
+				}
+				rs = append(rs, strings.Join(items, "+"))
 			}
 		}
 		parts = append(parts, p.vis+"^"+strings.Join(rs, "&"))
@@ -458,8 +493,20 @@ func decSev(t string) *sevSpec {
 				case "-":
 					p.rules = append(p.rules, sevRule{kind: "s", labels: map[string]string{}})
 				default:
-					l, _ := decLabels(strings.ReplaceAll(r, "+", "|"))
-					p.rules = append(p.rules, sevRule{kind: "s", labels: l})
+					rule := sevRule{kind: "s", labels: map[string]string{}}
+					for _, it := range strings.Split(r, "+") {
+						if f := strings.Split(it, ":"); len(f) == 3 {
+							e := sevExpr{key: wire.Dec(f[0]), op: f[1]}
+							if f[2] != "" {
+								e.values = strings.Split(f[2], ".")
+							}
+							rule.exprs = append(rule.exprs, e)
+						} else {
+							a, b, _ := strings.Cut(it, "=")
+							rule.labels[wire.Dec(a)] = wire.Dec(b)
+						}
+					}
+					p.rules = append(p.rules, rule)
 				}
 			}
 		}
@@ -491,8 +538,12 @@ func (v *sevSpec) proto(apply bool) *meshconfig.ServiceEntryVisibility {
 			case "!":
 				mr.Matcher = &meshconfig.ServiceEntryVisibility_MatchRule_NamespaceSelector{}
 			case "s":
-				mr.Matcher = &meshconfig.ServiceEntryVisibility_MatchRule_NamespaceSelector{
-					NamespaceSelector: &meshconfig.LabelSelector{MatchLabels: r.labels}}
+				sel := &meshconfig.LabelSelector{MatchLabels: r.labels}
+				for _, e := range r.exprs {
+					op := map[string]string{"in": "In", "notin": "NotIn", "ex": "Exists", "nex": "DoesNotExist"}[e.op]
+					sel.MatchExpressions = append(sel.MatchExpressions, &meshconfig.LabelSelectorRequirement{Key: e.key, Operator: op, Values: e.values})
+				}
+				mr.Matcher = &meshconfig.ServiceEntryVisibility_MatchRule_NamespaceSelector{NamespaceSelector: sel}
 			}
 			pp.MatchingRules = append(pp.MatchingRules, mr)
 		}
@@ -673,13 +724,13 @@ func (v *vsSpec) real() config.Config {
 	spec := &networking.VirtualService{Hosts: v.hosts, Gateways: v.gateways, ExportTo: v.exportTo}
 	for _, h := range v.http {
 		r := &networking.HTTPRoute{}
+		for _, sn := range h.srcNs {
+			r.Match = append(r.Match, &networking.HTTPMatchRequest{SourceNamespace: sn})
+		}
 		if h.delegate != nil {
 			r.Delegate = &networking.Delegate{Name: h.delegate[1], Namespace: h.delegate[0]}
 			spec.Http = append(spec.Http, r)
 			continue
-		}
-		for _, sn := range h.srcNs {
-			r.Match = append(r.Match, &networking.HTTPMatchRequest{SourceNamespace: sn})
 		}
 		// the destinations of one http route are spread over route / mirror / mirrors
 		for i, d := range h.dests {
@@ -703,7 +754,7 @@ func (v *vsSpec) real() config.Config {
 		}
 	}
 	c := config.Config{
-		Meta: config.Meta{GroupVersionKind: gvk.VirtualService, Name: v.name, Namespace: v.ns,
+		Meta: config.Meta{GroupVersionKind: gvk.VirtualService, Name: v.name, Namespace: v.ns, Domain: "cluster.local",
 			CreationTimestamp: epoch.Add(time.Duration(v.ctime) * time.Second)},
 		Spec: spec,
 	}
@@ -750,7 +801,7 @@ func (d *drSpec) real() config.Config {
 		ann = map[string]string{constants.InternalParentNames: "BackendTLSPolicy/x." + d.ns}
 	}
 	return config.Config{
-		Meta: config.Meta{GroupVersionKind: gvk.DestinationRule, Name: d.name, Namespace: d.ns, Annotations: ann,
+		Meta: config.Meta{GroupVersionKind: gvk.DestinationRule, Name: d.name, Namespace: d.ns, Annotations: ann, Domain: "cluster.local",
 			CreationTimestamp: epoch.Add(time.Duration(d.ctime) * time.Second)},
 		Spec: spec,
 	}
@@ -766,6 +817,7 @@ func (s *sidecarSpec) real() config.Config {
 		if l.port != 0 || l.proto != "" {
 			e.Port = &networking.SidecarPort{Number: uint32(l.port), Protocol: l.proto, Name: "p"}
 		}
+		e.Bind = l.bind
 		spec.Egress = append(spec.Egress, e)
 	}
 	return config.Config{
@@ -822,9 +874,27 @@ func (w *world) meshConfig() *meshconfig.MeshConfig {
 	return m
 }
 
+// close stops every environment the case built. Environments are only stopped at the end of the case, not when a
+// rebuild replaces them: stopping a krt-based VirtualService controller that still digests an update makes its
+// delegate transformation read a stopped singleton (nil dereference in a controller goroutine).
 func (w *world) close() {
 	if w.stop != nil {
-		close(w.stop)
+		w.stops = append(w.stops, w.stop)
+		w.stop = nil
+	}
+	if len(w.stops) > 0 {
+		time.Sleep(time.Millisecond)
+	}
+	for _, s := range w.stops {
+		close(s)
+	}
+	w.stops = nil
+}
+
+// retire keeps the current environment running until the case ends.
+func (w *world) retire() {
+	if w.stop != nil {
+		w.stops = append(w.stops, w.stop)
 		w.stop = nil
 	}
 }
@@ -843,7 +913,7 @@ func waitSynced(f func() bool) {
 }
 
 func (w *world) build() {
-	w.close()
+	w.retire()
 	features.UnifiedSidecarScoping = w.unified
 	features.SidecarPickBestServiceNamespace = w.pickBest
 	features.EnableEnhancedDestinationRuleMerge = w.enhanced
@@ -964,6 +1034,9 @@ func (w *world) keyAddr(h, ns string) string {
 	return ""
 }
 
+// labelledAddr: the address of the version=shared workload of the key whose plain workload is a.
+func labelledAddr(a string) string { return "10.8." + strings.TrimPrefix(a, "10.9.") }
+
 // realVisibilityFor runs the real compiled serviceEntryVisibility matcher on the labels of a namespace.
 func (w *world) realVisibilityFor(ns string) model.ServiceVisibility {
 	var sev *meshconfig.ServiceEntryVisibility
@@ -983,6 +1056,7 @@ func (w *world) realVisibilityFor(ns string) model.ServiceVisibility {
 // rebuilds from scratch: an incremental context must answer like a fresh one.
 
 func (w *world) update(t []string) string {
+	cnt("incremental-update-" + t[1])
 	var key model.ConfigKey
 	del := t[0] == "delete"
 	decl := t[1:]
@@ -1153,15 +1227,27 @@ func (w *world) registerEndpoints() {
 					continue
 				}
 				seen[p.name] = true
+				// two workloads per key: an unlabelled one (10.9.x.y) and one labelled version=shared (10.8.x.y), so
+				// that the subset of a DestinationRule (labels version=<subset name>) visibly narrows an EDS answer
+				a := w.keyAddr(k[0], k[1])
 				eps = append(eps, &model.IstioEndpoint{
-					Addresses:       []string{w.keyAddr(k[0], k[1])},
+					Addresses:       []string{a},
 					ServicePortName: p.name,
 					EndpointPort:    uint32(p.num),
 					Namespace:       k[1],
 					HostName:        k[0],
+				}, &model.IstioEndpoint{
+					Addresses:       []string{labelledAddr(a)},
+					ServicePortName: p.name,
+					EndpointPort:    uint32(p.num),
+					Namespace:       k[1],
+					HostName:        k[0],
+					Labels:          map[string]string{"version": "shared"},
 				})
 			}
 		}
 		env.EndpointIndex.UpdateServiceEndpoints(model.ShardKey{Cluster: "c1", Provider: "External"}, k[0], k[1], eps, false)
 	}
 }
+
+func epochStep(i int) time.Duration { return time.Duration(i) * time.Second }
